@@ -13,14 +13,27 @@ Restricted theorems (`_partial`) and what is missing:
   statement `C08_specifiers_reject_Statement` is refuted in Findings/C08.lean.  `C08_specifiers_exact` (full strength, all
   non-empty sequences) states precisely what is accepted instead: the C11 table up to repeated `signed`/`unsigned`.
 * `C08_layout_partial`, `C08_types_partial` — model = spec outside the three known-finding regions (all inside `packed`):
-  `PackedWithBitfield`, `PackedWithMemberAlign`, `PackedUnionBitfield`.  The full statements `C08_layout_Statement`,
-  `C08_types_Statement` are refuted in Findings/C08.lean by the listed witnesses.
-All layout theorems model C `int` by unbounded `Int` (aggregates below 256 MiB: no overflow of the bit counter).
+  `PackedWithBitfield` (a packed struct in which some bit-field, put at the next free bit, crosses a storage-unit boundary
+  of its declared type — packed structs whose bit-fields all fit are in scope), `PackedWithMemberAlign` (a packed
+  aggregate with a member `_Alignas` stricter than 1), `PackedUnionBitfield` (a packed union with a named bit-field
+  narrower, in bytes, than its declared type).  The full statements `C08_layout_Statement`, `C08_types_Statement` are
+  refuted in Findings/C08.lean by the listed witnesses.
+The whole input space of the two constraints the parser checks on the way to a layout is covered at full strength:
+`C08_aligned_exact` / `C08_aligned_zero` / `C08_aligned_rejected` (`aligned(n)` for every integer n), `C08_alignas`
+(`_Alignas(n)` for every n), `C08_bitfield_type` (declared type of a bit-field), `C08_outcome_class` (layout iff the
+specification accepts the declaration, else one of the two located diagnostics), `C08_no_divByZero` (no type description
+at all reaches a zero divisor) and `C08_align_bound` (alignments ≤ 2^28, so the `int` divisors of struct_decl do not wrap to 0).
+The well-formedness predicate `Ty.ok` asks of `aligned(n)` / `_Alignas(n)` what gcc and chibicc both accept: n = 0 or a
+power of two ≤ 2^28.
+The layout theorems above model C `int` by unbounded `Int`; `C08_layout_int_partial` redoes struct_decl/union_decl with every
+`int` operation explicit and shows that for aggregates below 256 MiB (minus one rounding step) nothing overflows and the
+same layouts result — signed overflow begins exactly in the region of known finding C08-huge-struct-overflow.
 -/
 import ChibiVerif.Model.Layout
 import ChibiVerif.Spec.LayoutSpec
 import ChibiVerif.Lemmas.DeclspecLemmas
 import ChibiVerif.Lemmas.LayoutLemmas
+import ChibiVerif.Lemmas.Layout32Lemmas
 
 namespace ChibiVerif.Props.C08
 open ChibiVerif.Layout ChibiVerif.Gen.Declspec ChibiVerif.Spec.Layout
@@ -124,7 +137,9 @@ def C08_layout_Statement : Prop :=
 
 /-- **C08 (layout; partial).**  Outside the three known-finding regions the statement holds: for every member list
     `struct_decl` never divides by zero and returns exactly the offsets, bit offsets, size and alignment of the psABI
-    allocation rule; `union_decl` likewise. -/
+    allocation rule; `union_decl` likewise.  The regions are narrow: a packed struct is excluded only if one of its
+    bit-fields actually straddles a storage unit where gcc puts it (`PackedWithBitfield`), a packed aggregate only if a
+    member asks for `_Alignas` > 1, a packed union only if a named bit-field is narrower than its type in bytes. -/
 theorem C08_layout_partial (packed : Bool) (aligned : Option Nat) (ms : List SMem)
     (hal : ∀ n, aligned = some n → 0 < n) (hwf : ∀ m ∈ ms, m.WF)
     (hA : PackedWithMemberAlign packed ms = false) :
@@ -136,6 +151,21 @@ theorem C08_layout_partial (packed : Bool) (aligned : Option Nat) (ms : List SMe
         = .ok (specUnion packed aligned ms).toLayout) :=
   ⟨fun hB => structLayout_eq packed aligned ms hal hwf (memInScope_of_regions hB hA),
    fun hU => unionLayout_eq packed aligned ms hal hwf (uMemInScope_of_regions hU hA)⟩
+
+-- non-vacuity of the narrowed regions: `struct __attribute__((packed)) { char a : 3; char b : 5; int c : 17; short d; _Alignas(1) long e; }`
+-- is in scope (every bit-field fits where gcc puts it): 14/1 with c at bits 8..24 of the unit at 0 …
+example :
+    let ms : List SMem := [⟨1, 1, 0, some 3, true⟩, ⟨1, 1, 0, some 5, true⟩, ⟨4, 4, 0, some 17, true⟩, ⟨2, 2, 0, none, true⟩,
+      ⟨8, 8, 1, none, true⟩]
+    (∀ m ∈ ms, m.WF) ∧ PackedWithMemberAlign true ms = false ∧ PackedWithBitfield true ms = false ∧
+    specStruct true none ms = ⟨14, 1, [⟨0, 0, 0⟩, ⟨3, 0, 3⟩, ⟨8, 0, 8⟩, ⟨32, 4, 0⟩, ⟨48, 6, 0⟩]⟩ := by
+  decide
+-- … and so is `union __attribute__((packed)) { char x : 5; int y : 25; short s; }` (both fields as wide in bytes as their types)
+example :
+    let ms : List SMem := [⟨1, 1, 0, some 5, true⟩, ⟨4, 4, 0, some 25, true⟩, ⟨2, 2, 0, none, true⟩]
+    (∀ m ∈ ms, m.WF) ∧ PackedWithMemberAlign true ms = false ∧ PackedUnionBitfield true ms = false ∧
+    specUnion true none ms = ⟨4, 1, [⟨0, 0, 0⟩, ⟨0, 0, 0⟩, ⟨0, 0, 0⟩]⟩ := by
+  decide
 
 /-- everything that is not `packed` is in scope: the full statement for plain and `aligned(n)` aggregates -/
 theorem C08_layout_unpacked (aligned : Option Nat) (ms : List SMem)
@@ -161,24 +191,105 @@ example :
     specStruct true (some 2) ms = ⟨12, 2, [⟨0, 0, 0⟩, ⟨8, 1, 0⟩, ⟨96, 0, 0⟩]⟩ := by
   decide
 
+/-! ## the C `int` arithmetic of struct_decl / union_decl (the 256 MiB boundary) -/
+
+/-- **C08 (layout in `int` arithmetic; partial).**  `struct_decl` and `union_decl` with every `int` operation of the C text
+    explicit (`Model/Layout32.lean`; `md = strict`: signed overflow is an outcome, C11 6.5p5; `md = wrap`: two's complement,
+    what the compiled code does): outside the three packed regions, if every divisor the loop uses is at most `S` bits
+    (`SMem.step`: storage unit of a bit-field, `mem->align * 8`, 8 in a packed struct; also `ty->align * 8`) and the end of
+    the struct plus `S` stays below 2^31 bits, then no operation overflows and the result is the psABI layout — in both
+    modes.  So the unbounded-`Int` idealisation of the other layout theorems is exact for every struct up to `2^28 - S/8`
+    bytes; the known finding C08-huge-struct-overflow begins there.  Unions: member sizes (in bits, + 7) at most `S`,
+    `S` plus the alignment below 2^31. -/
+theorem C08_layout_int_partial (md : IntMode) (packed : Bool) (aligned : Option Nat) (ms : List SMem) (S : Nat)
+    (hal : ∀ n, aligned = some n → 0 < n) (hwf : ∀ m ∈ ms, m.WF)
+    (hA : PackedWithMemberAlign packed ms = false) :
+    (PackedWithBitfield packed ms = false → (∀ m ∈ ms, m.step packed ≤ S) → 8 * (specStruct packed aligned ms).align ≤ S →
+      8 * (specStruct packed aligned ms).size + S < 2 ^ 31 →
+      structLayout32 md packed ((aligned.getD STRUCT_INIT_ALIGN : Nat) : Int) (ms.map SMem.toMem)
+        = .ok (specStruct packed aligned ms).toLayout) ∧
+    (PackedUnionBitfield packed ms = false → (∀ m ∈ ms, 8 * m.size + 7 ≤ S) →
+      S + (specUnion packed aligned ms).align < 2 ^ 31 →
+      unionLayout32 md packed ((aligned.getD STRUCT_INIT_ALIGN : Nat) : Int) (ms.map SMem.toMem)
+        = .ok (specUnion packed aligned ms).toLayout) :=
+  ⟨fun hB hS hAl hb => structLayout32_eq md packed aligned ms S hal hwf (memInScope_of_regions hB hA) hS hAl hb,
+   fun hU hS hb => unionLayout32_eq md packed aligned ms S hal hwf (uMemInScope_of_regions hU hA) hS hb⟩
+
+-- non-vacuity: `struct { char a[268435000]; int b : 3; long : 0; short c : 9; _Alignas(16) char d; }` (just below 256 MiB) with S = 128
+example :
+    let ms : List SMem := [⟨268435000, 1, 0, none, true⟩, ⟨4, 4, 0, some 3, true⟩, ⟨8, 8, 0, some 0, false⟩,
+      ⟨2, 2, 0, some 9, true⟩, ⟨1, 1, 16, none, true⟩]
+    (∀ m ∈ ms, m.WF) ∧ PackedWithMemberAlign false ms = false ∧ PackedWithBitfield false ms = false ∧
+    (∀ m ∈ ms, m.step false ≤ 128) ∧ 8 * (specStruct false none ms).align ≤ 128 ∧
+    8 * (specStruct false none ms).size + 128 < 2 ^ 31 ∧ (specStruct false none ms).size = 268435040 := by
+  decide +kernel
+
+/-- **C08 (whole types in `int` arithmetic; partial).**  The type-level functions with every `int` operation explicit
+    (`Ty.layout32`: `array_of`'s `base->size * len`, struct_decl, union_decl, and struct_members' "field has incomplete type"
+    test on the — possibly wrapped — size): for every well-formed description outside the three packed regions (`Ty.ok true`)
+    all of whose arrays and aggregates are in range (`Ty.inRange`: array size below 2^31; struct: sizeof + _Alignof + 8 below
+    2^28 bytes; union: member sizes in bits plus the alignment below 2^31), the result is the psABI layout in strict mode (no
+    signed overflow anywhere) and in wrap mode (the compiled code).  Outside `inRange` the wrap mode is what the check compares
+    with the real compiler (known finding C08-huge-struct-overflow). -/
+theorem C08_types_int_partial (md : IntMode) (t : Ty) (h : t.ok true = true) (hr : t.inRange = true) :
+    t.layout32 md = .ok (specTy t).toLayout :=
+  layout32_eq md t h hr
+
+-- non-vacuity: struct { char a[268435000]; struct { int f : 3; long g; } s[2]; } is in range (268435032 bytes);
+-- struct { char a[1 << 28]; char b; } is not
+example :
+    let t : Ty := .struct false none (.cons ⟨none, true⟩ .nil (.arr (.prim .char) 268435000) (.cons ⟨none, true⟩ .nil
+      (.arr (.struct false none (.cons ⟨some 3, true⟩ .nil (.prim .int) (.cons ⟨none, true⟩ .nil (.prim .long) .nil))) 2) .nil))
+    t.ok true = true ∧ t.inRange = true ∧ (specTy t).size = 268435032 ∧
+    (Ty.struct false none (.cons ⟨none, true⟩ .nil (.arr (.prim .char) 268435456) (.cons ⟨none, true⟩ .nil (.prim .char) .nil))).inRange
+      = false := by
+  decide +kernel
+
 /-! ## `_Alignas` -/
 
 /-- **C08 (`_Alignas`, one specifier).**  What the `_Alignas` arm of `declspec` (regenerated from parse.c) does with the
     running `attr->align`: a type-name operand contributes exactly its *alignment* (`typename(..)->align`, never its size,
-    whatever the operand: array, struct, union, pointer, scalar), a constant operand its value, and the strictest wins
-    (`MAX`). -/
+    whatever the operand: array, struct, union, pointer, scalar); a constant operand that is 0 or one of 2^0 … 2^28
+    contributes its value (0: nothing); the strictest wins (`MAX`); every other constant (negative, not a power of two,
+    larger than 2^28 — also 2^29 and 2^30, whose `* 8` wrapped to a zero divisor in struct_decl before fix 33adb94) is the
+    located diagnostic "alignment must be a power of two no larger than 2^28".  This is gcc's rule. -/
 theorem C08_alignas :
     (∀ (t : Ty) (rest : Aligns) (acc s a : Int), t.sizeAlign = .ok (s, a) →
       (Aligns.type t rest).eval acc = rest.eval (if acc < a then a else acc)) ∧
-    (∀ (n : Int) (rest : Aligns) (acc : Int),
-      (Aligns.const n rest).eval acc = rest.eval (if acc < n then n else acc)) := by
-  constructor
+    (∀ (n : Int) (rest : Aligns) (acc : Int), (n = 0 ∨ ∃ k, k ≤ 28 ∧ n = (2 : Int) ^ k) →
+      (Aligns.const n rest).eval acc = rest.eval (if acc < n then n else acc)) ∧
+    (∀ (n : Int) (rest : Aligns) (acc : Int), n ≠ 0 → (∀ k, k ≤ 28 → n ≠ (2 : Int) ^ k) →
+      (Aligns.const n rest).eval acc = .error .badAlign) := by
+  refine ⟨?_, ?_, ?_⟩
   · intro t rest acc s a h
     simp only [Aligns.eval, h, bind, Except.bind, alignasCombine, alignasOfType]
     rfl
-  · intro n rest acc
-    simp only [Aligns.eval, alignasCombine, alignasOfConst]
+  · intro n rest acc hn
+    have hgood : alignasConstBad n = false := by
+      rw [alignasConstBad_eq, alignedAttrBad_iff]
+      rcases hn with h0 | h
+      · exact Or.inl h0
+      · exact Or.inr ((pow2le28_iff n).2 h)
+    simp only [Aligns.eval, hgood, Bool.false_eq_true, if_false, alignasCombine, alignasOfConst]
     rfl
+  · intro n rest acc h0 hp
+    have hbad : alignasConstBad n = true := by
+      cases hb : alignasConstBad n with
+      | true => rfl
+      | false =>
+        rw [alignasConstBad_eq, alignedAttrBad_iff] at hb
+        rcases hb with h | h
+        · exact absurd h h0
+        · obtain ⟨k, hk, hn⟩ := (pow2le28_iff n).1 h
+          exact absurd hn (hp k hk)
+    simp only [Aligns.eval, hbad, if_true]
+
+-- non-vacuity: `_Alignas(16)`, `_Alignas(0)` pass; `_Alignas(536870912)`, `_Alignas(3)`, `_Alignas(-8)` are diagnosed
+example : (Aligns.const 16 .nil).eval 0 = .ok 16 ∧ (Aligns.const 0 (.const 4 .nil)).eval 0 = .ok 4 ∧
+    (Aligns.const 536870912 .nil).eval 0 = .error .badAlign ∧ (Aligns.const 3 .nil).eval 0 = .error .badAlign ∧
+    (Aligns.const (-8) .nil).eval 0 = .error .badAlign ∧
+    (Ty.struct false none (.cons ⟨none, true⟩ (.const 536870912 .nil) (.prim .char) .nil)).layout = .error .badAlign := by
+  decide
 
 /-- **C08 (`_Alignas`, any number of specifiers; partial only in that type-name operands must lie outside the three
     packed regions).**  For every list of alignment specifiers, `declspec` leaves in `attr->align` the maximum of
@@ -285,14 +396,43 @@ example :
   decide
 
 /-- **C08 (no zero divisor).**  For *every* type description — any nesting of arrays, pointers, structs and unions, any
-    `packed`, any `aligned(n)` (n any integer), any `_Alignas` specifiers with constant or type-name operands, bit-fields of
-    any declared type and any width, named or not — the model of `struct_members`/`attribute_list`/`struct_decl`/`union_decl`
+    `packed`, any `aligned(n)` and `_Alignas(n)` (n any integer), `_Alignas` with type-name operands, bit-fields of any
+    declared type and any width, named or not — the model of `struct_members`/`attribute_list`/`struct_decl`/`union_decl`
     never reaches `align_to(n, 0)` or `bits / (sz * 8)` with `sz = 0`: `sizeof`/`_Alignof`, the layout and the alignment of
-    a declared object are a value or a located diagnostic.  (Arithmetic in unbounded `Int`; the one place where the real
-    `int` arithmetic differs is `mem->align * 8` for `_Alignas(n)`, n ≥ 2^29, on a struct member: see the header.) -/
+    a declared object are a value or a located diagnostic.  (Arithmetic in unbounded `Int`; `C08_align_bound` shows that
+    the divisors are not zero in the 32-bit `int` arithmetic of the code either.) -/
 theorem C08_no_divByZero (t : Ty) (as : Aligns) :
     t.sizeAlign ≠ .error .divByZero ∧ t.layout ≠ .error .divByZero ∧ varAlign as t ≠ .error .divByZero :=
   ⟨sizeAlign_ne_divByZero t, layout_ne_divByZero t, varAlign_ne_divByZero as t⟩
+
+/-- **C08 (alignments are bounded by 2^28; the `int` divisors cannot wrap to zero).**  Every alignment the model ever
+    computes lies in (0, 2^28]: `_Alignof` of every type description that has one, the alignment of every laid-out
+    aggregate, and `mem->align` of every member `struct_members` hands to `struct_decl`/`union_decl`; a bit-field's declared
+    type has 1 … 8 bytes.  Hence the divisors of `struct_decl` computed as C `int` (32-bit two's complement, `int32`):
+    `mem->ty->size * 8` does not overflow and is not zero, `mem->align * 8` and `ty->align * 8` are not zero (2^28 * 8 = 2^31
+    wraps to -2^31; a larger alignment — 2^29 * 8 and 2^30 * 8 wrap to 0 — reaches no loop). -/
+theorem C08_align_bound :
+    (∀ (t : Ty) (s a : Int), t.sizeAlign = .ok (s, a) → 0 < a ∧ a ≤ 2 ^ 28) ∧
+    (∀ (t : Ty) (l : Layout), t.layout = .ok l → 0 < l.align ∧ l.align ≤ 2 ^ 28) ∧
+    (∀ (ms : Members) (l : List Mem), ms.toMems = .ok l → ∀ m ∈ l,
+      (0 < m.align ∧ m.align ≤ 2 ^ 28 ∧ int32 (m.align * 8) ≠ 0) ∧
+      (m.bitWidth.isSome = true → 0 < m.size ∧ m.size ≤ 8 ∧ int32 (m.size * 8) = m.size * 8)) ∧
+    (∀ a : Int, 0 < a → a ≤ 2 ^ 28 → int32 (a * 8) ≠ 0) ∧ int32 (2 ^ 29 * 8) = 0 ∧ int32 (2 ^ 30 * 8) = 0 := by
+  have e : (2 : Int) ^ 28 = MAXALIGN := by decide
+  rw [e]
+  refine ⟨fun t s a h => sizeAlign_align_pos h, fun t l h => ?_, fun ms l h m hm => ?_,
+    fun a h1 h2 => int32_mul8_ne_zero h1 h2, by decide, by decide⟩
+  · have := layout_inv t
+    rw [h] at this
+    exact this
+  · have hg := toMems_good h
+    have hd := divisors_int32 l hg 1 (by decide)
+    exact ⟨⟨(hg m hm).1.1, (hg m hm).1.2, hd.2.1 m hm⟩,
+      fun hb => ⟨((hg m hm).2 hb).1, ((hg m hm).2 hb).2, (hd.1 m hm hb).1⟩⟩
+
+-- non-vacuity: `struct { _Alignas(268435456) char c; }` reaches the bound (and is laid out: 2^28/2^28)
+example : (Ty.struct false none (.cons ⟨none, true⟩ (.const 268435456 .nil) (.prim .char) .nil)).sizeAlign
+    = .ok (268435456, 268435456) := by decide +kernel
 
 /-- **C08 (outcome class).**  A type description gets a layout iff the specification accepts it (`specAccepted`, gcc's
     constraints: every `aligned(n)` is 0 or a power of two ≤ 2^28 and every bit-field has an integer declared type, at every
@@ -329,6 +469,21 @@ def C08_types_Statement : Prop :=
     offsets and bit-field positions, and never divides by zero. -/
 theorem C08_types_partial (t : Ty) (h : t.ok true = true) : t.layout = .ok (specTy t).toLayout :=
   layout_eq t h
+
+/-- **C08 (whole types, by region).**  The same with the scope spelled out by region: a well-formed description
+    (`Ty.ok false`) no aggregate of which — at any depth, `_Alignas(type-name)` operands included — lies in one of the three
+    known-finding regions (`Ty.inRegion k`, k = 0, 1, 2; this is what `drv_c08 regions` prints and what the check uses to
+    attribute a mismatch to a known finding) gets the psABI layout. -/
+theorem C08_types_outside_regions (t : Ty) (h : t.ok false = true) (hr : ∀ k, k < 3 → t.inRegion k = false) :
+    t.layout = .ok (specTy t).toLayout :=
+  layout_eq t (ok_of_noRegion_ty t h hr)
+
+-- non-vacuity: struct { char a; struct __attribute__((packed)) { char f : 3; int g : 17; } p; } touches no region
+example :
+    let t : Ty := .struct false none (.cons ⟨none, true⟩ .nil (.prim .char) (.cons ⟨none, true⟩ .nil
+      (.struct true none (.cons ⟨some 3, true⟩ .nil (.prim .char) (.cons ⟨some 17, true⟩ .nil (.prim .int) .nil))) .nil))
+    t.ok false = true ∧ (∀ k, k < 3 → t.inRegion k = false) ∧ specTy t = ⟨4, 1, [⟨0, 0, 0⟩, ⟨8, 1, 0⟩]⟩ := by
+  decide
 
 -- non-vacuity: struct { char a; struct { long x; int y : 5; int : 0; char z[3]; }; union { short s; long double d; } u; int *p[2]; char f[]; }
 example :
